@@ -124,7 +124,28 @@ def run(ctx, rep):
                      and norm(n.left).split(".")[0] != norm(n.comparators[0]).split(".")[0] for n in ast.walk(fi.node))
         length = any(isinstance(n, ast.Compare) and all(any(f"len({p}.{x})" in norm(n) for x in (f, prop)) for p in params) for n in ast.walk(fi.node))
         keywise = any(isinstance(n, ast.For) and norm(n.iter).replace(".keys()", "").replace(".items()", "") in names for n in ast.walk(fi.node))
-        ok = direct or (length and keywise)
+        via_helper = False
+        for c in ast.walk(fi.node):
+            if isinstance(c, ast.Call) and len(c.args) == 2 and {norm(a) for a in c.args} <= names and norm(c.args[0]).split(".")[0] != norm(c.args[1]).split(".")[0]:
+                for tg in w.resolve_call(w.types(fi), c):
+                    H = tg.func
+                    if H is None or H.qname == fi.qname:
+                        continue
+                    hp = [x for x in H.params if x not in ("self", "cls")][:2]
+                    if len(hp) != 2:
+                        continue
+                    a, b = hp
+                    h_direct = any(isinstance(n, ast.Compare) and isinstance(n.ops[0], (ast.Eq, ast.NotEq)) and {norm(n.left), norm(n.comparators[0])} == {a, b}
+                                   for n in ast.walk(H.node))
+                    h_len = any(isinstance(n, ast.Compare) and f"len({a})" in norm(n) and f"len({b})" in norm(n) for n in ast.walk(H.node))
+                    h_key = any(isinstance(n, ast.For) and norm(n.iter).replace(".keys()", "").replace(".items()", "") in (a, b) for n in ast.walk(H.node))
+                    # a lookup that cannot tell a missing key from a None value is not a comparison of the key sets
+                    h_get = any(isinstance(n, ast.Call) and isinstance(n.func, ast.Attribute) and n.func.attr == "get" and norm(n.func.value) in (a, b)
+                                for n in ast.walk(H.node))
+                    if h_direct or (h_len and h_key and not h_get):
+                        via_helper = True
+                        rep.touch(H)
+        ok = direct or (length and keywise) or via_helper
         rep.oblige(("R3", f), ok, sample={"dict field": f, "compared by": "==" if direct else "length + key-wise" if ok else "one-sided"})
         if not ok:
             rep.add("R3", fi.qname, f"comparison of {prop}", f"{prop} is compared one-sidedly (key-wise without the length test, or not at all): "
